@@ -1,24 +1,25 @@
 #!/bin/bash
-# tools/seedtest.sh <seedname> <PID> [tier]: validate a seeded change from /tmp/seed/<seedname> and run the check against it
+# tools/seedtest.sh <seedname> <PID> [tier] [notests]: validate a seeded change and run the check against it.
+# The patch is applied to a scratch worktree of /repo main (never to /repo itself); the check runs with VERIF_REPO.
 set -e
 n=$1; pid=$2; tier=${3:-quick}
 W=/tmp/seed/$n
+R=/tmp/seedrepo.$$
 mkdir -p /verif/seeded/$n
 if [ -d $W ]; then
   git -C $W diff -- sigma > /verif/seeded/$n/patch.diff
   cp $W/seed_demo.py /verif/seeded/$n/demo.py
   cp $W/seed_meta.json /verif/seeded/$n/agent_meta.json 2>/dev/null || true
 fi
-cd /repo
-test -z "$(git status --short)" || { echo "/repo dirty"; exit 2; }
-# demo on unchanged tree must pass
-PYTHONPATH=/repo /venv/bin/python /verif/seeded/$n/demo.py >/dev/null 2>&1 && echo "demo: passes on unchanged tree" || echo "demo: FAILS on unchanged tree (!)"
+git -C /repo worktree add -q --detach $R main
+trap 'git -C /repo worktree remove --force $R; git -C /repo worktree prune' EXIT
+cd $R
+PYTHONPATH=$R /venv/bin/python /verif/seeded/$n/demo.py >/dev/null 2>&1 && echo "demo: passes on unchanged tree" || echo "demo: FAILS on unchanged tree (!)"
 git apply /verif/seeded/$n/patch.diff
-PYTHONPATH=/repo /venv/bin/python /verif/seeded/$n/demo.py >/dev/null 2>&1 && echo "demo: passes WITH change (!)" || echo "demo: fails with change (as intended)"
+PYTHONPATH=$R /venv/bin/python /verif/seeded/$n/demo.py >/dev/null 2>&1 && echo "demo: passes WITH change (!)" || echo "demo: fails with change (as intended)"
 if [ "$4" != "notests" ]; then
   /venv/bin/python -m pytest -q -p no:cacheprovider -x -q tests --deselect tests/test_plugins.py --deselect tests/test_validators_tags.py 2>&1 | tail -1
 fi
 cd /verif
-./check $pid --tier $tier 2>&1 | grep -E "VIOLATION|INTERNAL|Error|rc=" | cut -c1-200 | head -5
+VERIF_REPO=$R ./check $pid --tier $tier 2>&1 | grep -E "VIOLATION|INTERNAL|Error|rc=" | cut -c1-200 | head -5
 echo "check exit: ${PIPESTATUS[0]}"
-git -C /repo checkout -- .
